@@ -187,6 +187,22 @@ func App(name string, res Sort, args ...*Term) *Term {
 	return mk(&Term{Op: "app", Sort: res, Name: name, Args: args})
 }
 
+// linParts splits a term into its non-constant summands (nested "+" flattened) and a constant.
+func linParts(t *Term, atoms *[]*Term, c *big.Int) {
+	switch {
+	case t.Op == "int":
+		c.Add(c, t.Int)
+	case t.Op == "+":
+		for _, a := range t.Args {
+			linParts(a, atoms, c)
+		}
+	default:
+		*atoms = append(*atoms, t)
+	}
+}
+
+// Add builds a canonical sum: non-constant summands sorted by term id, left-associated, the
+// constant last — so that (x+1)+y, x+(y+1) and (y+x)+1 are the same term.
 func Add(a, b *Term) *Term {
 	if a.Op == "int" && b.Op == "int" {
 		return BigC(new(big.Int).Add(a.Int, b.Int))
@@ -197,15 +213,53 @@ func Add(a, b *Term) *Term {
 	if b.Op == "int" && b.Int.Sign() == 0 {
 		return a
 	}
-	// (x + c1) + c2
-	if b.Op == "int" && a.Op == "+" && a.Args[1].Op == "int" {
-		return Add(a.Args[0], BigC(new(big.Int).Add(a.Args[1].Int, b.Int)))
+	var atoms []*Term
+	c := new(big.Int)
+	linParts(a, &atoms, c)
+	linParts(b, &atoms, c)
+	sort.SliceStable(atoms, func(i, j int) bool { return atoms[i].id < atoms[j].id })
+	var r *Term
+	for _, x := range atoms {
+		if r == nil {
+			r = x
+		} else {
+			r = mk(&Term{Op: "+", Sort: SInt, Args: []*Term{r, x}})
+		}
 	}
-	if a.Op == "int" {
-		a, b = b, a
+	if r == nil {
+		return BigC(c)
 	}
-	return mk(&Term{Op: "+", Sort: SInt, Args: []*Term{a, b}})
+	if c.Sign() != 0 {
+		r = mk(&Term{Op: "+", Sort: SInt, Args: []*Term{r, BigC(c)}})
+	}
+	return r
 }
+
+// constDiff reports a - b when the two terms have the same non-constant summands.
+func constDiff(a, b *Term) (*big.Int, bool) {
+	if a.Sort != SInt || b.Sort != SInt {
+		return nil, false
+	}
+	if a == b {
+		return new(big.Int), true
+	}
+	var aa, ba []*Term
+	ca, cb := new(big.Int), new(big.Int)
+	linParts(a, &aa, ca)
+	linParts(b, &ba, cb)
+	if len(aa) != len(ba) {
+		return nil, false
+	}
+	sort.SliceStable(aa, func(i, j int) bool { return aa[i].id < aa[j].id })
+	sort.SliceStable(ba, func(i, j int) bool { return ba[i].id < ba[j].id })
+	for i := range aa {
+		if aa[i] != ba[i] {
+			return nil, false
+		}
+	}
+	return ca.Sub(ca, cb), true
+}
+
 func Neg(a *Term) *Term { return Sub(IntC(0), a) }
 func Sub(a, b *Term) *Term {
 	if a.Op == "int" && b.Op == "int" {
@@ -216,6 +270,9 @@ func Sub(a, b *Term) *Term {
 	}
 	if a == b {
 		return IntC(0)
+	}
+	if d, ok := constDiff(a, b); ok {
+		return BigC(d)
 	}
 	return mk(&Term{Op: "-", Sort: SInt, Args: []*Term{a, b}})
 }
@@ -278,6 +335,9 @@ func Lt(a, b *Term) *Term {
 	if a == b {
 		return tFalse
 	}
+	if d, ok := constDiff(a, b); ok {
+		return BoolC(d.Sign() < 0)
+	}
 	return mk(&Term{Op: "<", Sort: SBool, Args: []*Term{a, b}})
 }
 func Le(a, b *Term) *Term {
@@ -286,6 +346,9 @@ func Le(a, b *Term) *Term {
 	}
 	if a == b {
 		return tTrue
+	}
+	if d, ok := constDiff(a, b); ok {
+		return BoolC(d.Sign() <= 0)
 	}
 	return mk(&Term{Op: "<=", Sort: SBool, Args: []*Term{a, b}})
 }
@@ -304,6 +367,11 @@ func Eq(a, b *Term) *Term {
 	}
 	if a.Op == "bool" && b.Op == "bool" {
 		return BoolC(a.B == b.B)
+	}
+	if a.Sort == SInt && (a.Op == "+" || b.Op == "+") {
+		if d, ok := constDiff(a, b); ok {
+			return BoolC(d.Sign() == 0)
+		}
 	}
 	if a.Sort == SBool {
 		if a.Op == "bool" {
@@ -488,6 +556,12 @@ func Select(a, i *Term) *Term {
 			if a.Args[1].Op == "int" && i.Op == "int" {
 				a = a.Args[0]
 				continue
+			}
+			if a.Args[1].Op == "+" || i.Op == "+" {
+				if d, ok := constDiff(a.Args[1], i); ok && d.Sign() != 0 {
+					a = a.Args[0]
+					continue
+				}
 			}
 		case "constarr":
 			return a.Args[0]
